@@ -266,6 +266,7 @@ package jsonpatch
 //@   invariant both-arrays: n.which == eAry && o != nil && o.which == eAry && len(n.ary) == len(o.ary) && n.ary == atentry(n.ary) && o.ary == atentry(o.ary)
 
 //@ func Equal
+//@   modifies region(lazyNode.which), region(lazyNode.doc), region(lazyNode.ary), region(lazyNode.raw), region(elem *lazyNode), region(map map[string]*lazyNode), region(cell int64), region(cell container), region(cell any), ghost(BufContent)
 
 // ---- pointer walk and the six operations (C18) ----
 
@@ -384,15 +385,18 @@ package jsonpatch
 // ---- exported entry points ----
 
 //@ func DecodePatch
+//@   modifies region(lazyNode.which), region(lazyNode.doc), region(lazyNode.ary), region(lazyNode.raw), region(elem *lazyNode), region(map map[string]*lazyNode), region(cell int64), region(cell container), region(cell any), ghost(BufContent)
 //@   ensures[C18] nil-on-error: err != nil ==> result.0 == nil
 //@   ensures[C18] rejects-ill-formed: !wf(buf) ==> err != nil
 //@   ensures[C04,C18] patch-ok: err == nil ==> rPatchOK(result.0)
 
 //@ func (Patch).Apply
+//@   modifies region(lazyNode.which), region(lazyNode.doc), region(lazyNode.ary), region(lazyNode.raw), region(elem *lazyNode), region(map map[string]*lazyNode), region(cell int64), region(cell container), region(cell any), ghost(BufContent)
 //@   requires patch: rPatchOK(p)
 //@   ensures[C18] nothing-with-error: err != nil ==> result.0 == nil
 
 //@ func (Patch).ApplyIndent
+//@   modifies region(lazyNode.which), region(lazyNode.doc), region(lazyNode.ary), region(lazyNode.raw), region(elem *lazyNode), region(map map[string]*lazyNode), region(cell int64), region(cell container), region(cell any), ghost(BufContent)
 //@   requires patch: rPatchOK(p)
 //@   ensures[C18] nothing-with-error: err != nil ==> result.0 == nil
 //@   ensures[C18] rejects-ill-formed: len(doc) > 0 && !wf(doc) ==> err != nil
@@ -457,12 +461,15 @@ package jsonpatch
 //@   invariant kept: rDocsKept()
 
 //@ func doMergePatch
+//@   modifies region(lazyNode.which), region(lazyNode.doc), region(lazyNode.ary), region(lazyNode.raw), region(elem *lazyNode), region(map map[string]*lazyNode), region(cell int64), region(cell container), region(cell any), ghost(BufContent)
 //@   assume A-merge-entry: rNoNullKids()
 //@   ensures[C19] rejects-ill-formed-doc: !wf(docData) ==> err != nil && result.0 == nil
 //@   ensures[C19] rejects-ill-formed-patch: !wf(patchData) ==> err != nil && result.0 == nil
 
 //@ func MergePatch
+//@   modifies region(lazyNode.which), region(lazyNode.doc), region(lazyNode.ary), region(lazyNode.raw), region(elem *lazyNode), region(map map[string]*lazyNode), region(cell int64), region(cell container), region(cell any), ghost(BufContent)
 //@ func MergeMergePatches
+//@   modifies region(lazyNode.which), region(lazyNode.doc), region(lazyNode.ary), region(lazyNode.raw), region(elem *lazyNode), region(map map[string]*lazyNode), region(cell int64), region(cell container), region(cell any), ghost(BufContent)
 
 // ---- CreateMergePatch (C19): one level of the difference at a time (numbers are float64 in v4) ----
 // The decoded trees are map[string]interface{} / []interface{} / string / float64 / bool / nil (RIfaceMaps).
@@ -521,17 +528,26 @@ package jsonpatch
 //@   ensures[C19] other-roots-do-not: wf(input) && kind(val(bytes(input))) != KArr ==> !result
 
 //@ func createObjectMergePatch
+//@   modifies region(lazyNode.which), region(lazyNode.doc), region(lazyNode.ary), region(lazyNode.raw), region(elem *lazyNode), region(map map[string]*lazyNode), region(cell int64), region(cell container), region(cell any), ghost(BufContent)
 //@   callsite[C19] getDiff#1 difference-of-the-two-decoded-documents: arg_a == *originalDoc && arg_b == *modifiedDoc
 //@   callsite[C19] Marshal#1 the-difference-is-what-is-returned: arg_v == dest
 //@   ensures[C19] rejects-ill-formed: !wf(originalJSON) || !wf(modifiedJSON) ==> err != nil && result.0 == nil
 //@   ensures[C19] rejects-non-objects: wf(originalJSON) && wf(modifiedJSON) && ((kind(val(bytes(originalJSON))) != KObj && kind(val(bytes(originalJSON))) != KNull) || (kind(val(bytes(modifiedJSON))) != KObj && kind(val(bytes(modifiedJSON))) != KNull)) ==> err != nil && result.0 == nil
 
 //@ func createArrayMergePatch
+//@   modifies region(lazyNode.which), region(lazyNode.doc), region(lazyNode.ary), region(lazyNode.raw), region(elem *lazyNode), region(map map[string]*lazyNode), region(cell int64), region(cell container), region(cell any), ghost(BufContent)
 //@   callsite[C19] createObjectMergePatch#1 element-by-element: arg_originalJSON == (*originalDocs)[i] && arg_modifiedJSON == (*modifiedDocs)[i]
 //@   ensures[C19] rejects-ill-formed: !wf(originalJSON) || !wf(modifiedJSON) ==> err != nil && result.0 == nil
 //@   ensures[C19] rejects-different-lengths: wf(originalJSON) && wf(modifiedJSON) && kind(val(bytes(originalJSON))) == KArr && kind(val(bytes(modifiedJSON))) == KArr && jlen(val(bytes(originalJSON))) != jlen(val(bytes(modifiedJSON))) ==> err != nil && result.0 == nil
 
+//@   loop 1
+//@   invariant result-is-private: result == nil || fresh(result)
+
 //@ func CreateMergePatch
+//@   modifies region(lazyNode.which), region(lazyNode.doc), region(lazyNode.ary), region(lazyNode.raw), region(elem *lazyNode), region(map map[string]*lazyNode), region(cell int64), region(cell container), region(cell any), ghost(BufContent)
 //@   ensures[C19] rejects-ill-formed: !wf(originalJSON) || !wf(modifiedJSON) ==> err != nil
 //@   ensures[C19] rejects-mixed-roots: wf(originalJSON) && wf(modifiedJSON) && ((kind(val(bytes(originalJSON))) == KArr) != (kind(val(bytes(modifiedJSON))) == KArr)) ==> err != nil && result.0 == nil
 //@   ensures[C19] rejects-scalar-roots: wf(originalJSON) && wf(modifiedJSON) && kind(val(bytes(originalJSON))) != KArr && kind(val(bytes(modifiedJSON))) != KArr && ((kind(val(bytes(originalJSON))) != KObj && kind(val(bytes(originalJSON))) != KNull) || (kind(val(bytes(modifiedJSON))) != KObj && kind(val(bytes(modifiedJSON))) != KNull)) ==> err != nil
+
+// C09 (inputs are never modified): the exported functions write only the document tree they build and memory they
+// allocate - no element of a byte slice and no map, slice or raw message of a Patch that existed before the call.
